@@ -506,21 +506,26 @@ def generate():
         '  (%s, %s, %s)' % (q(n), zl(a), zl(b)) for n, a, b in vals['messages'])
     vf.write_if_changed(os.path.join(vf.THEORIES, 'Generated', 'EnumsCpp.v'), t)
 
-    # ---- EnumsPy.v
-    t = vf.gen_header(['python/fusion_engine_client/**/*.py (import + introspection)']) + HEAD
-    t += '(* every IntEnum subclass of the package: ("module.Class", [(member or alias, value)]) *)\n'
-    t += coq_enum_table('py_enums', [(k, [(m, v) for m, v in py['enums'][k]]) for k in sorted(py['enums'])])
-    t += '(* is_command(t) / is_response(t) evaluated on every member of the Python MessageType: (value, is_command, is_response) *)\n'
-    t += 'Definition py_classification : list (Z * bool * bool) := [\n%s\n].\n' % ';\n'.join(
-        '  (%s, %s, %s)' % (zl(v), 'true' if c else 'false', 'true' if r else 'false') for v, c, r in py['classification'])
-    t += 'Definition py_command_messages : list Z := [%s].\n' % '; '.join(zl(v) for v in py['command_messages'])
-    t += 'Definition py_response_messages : list Z := [%s].\n' % '; '.join(zl(v) for v in py['response_messages'])
-    t += '(* every MessagePayload subclass declaring MESSAGE_TYPE: (class, type, version) *)\n'
-    t += 'Definition py_classes : list (string * Z * Z) := [\n%s\n].\n' % ';\n'.join(
-        '  (%s, %s, %s)' % (q(n), zl(a), zl(b)) for n, a, b in py['classes'])
-    t += '(* message_type_to_class: (type, class) *)\n'
-    t += 'Definition py_registry : list (Z * string) := [\n%s\n].\n' % ';\n'.join(
-        '  (%s, %s)' % (zl(a), q(n)) for a, n in py['registry'])
+    # ---- EnumsPy.v: the tables as read right after import, and again after the library has been used (suffix _after)
+    def py_defs(snap, suf, what):
+        u = '(* %s *)\n' % what
+        u += '(* every IntEnum subclass of the package: ("module.Class", [(member or alias, value)]) *)\n'
+        u += coq_enum_table('py_enums' + suf, [(k, [(m, v) for m, v in snap['enums'][k]]) for k in sorted(snap['enums'])])
+        u += '(* is_command(t) / is_response(t) evaluated on every member of the Python MessageType: (value, is_command, is_response) *)\n'
+        u += 'Definition py_classification%s : list (Z * bool * bool) := [\n%s\n].\n' % (suf, ';\n'.join(
+            '  (%s, %s, %s)' % (zl(v), 'true' if c else 'false', 'true' if r else 'false') for v, c, r in snap['classification']))
+        u += 'Definition py_command_messages%s : list Z := [%s].\n' % (suf, '; '.join(zl(v) for v in snap['command_messages']))
+        u += 'Definition py_response_messages%s : list Z := [%s].\n' % (suf, '; '.join(zl(v) for v in snap['response_messages']))
+        u += '(* every MessagePayload subclass declaring MESSAGE_TYPE: (class, type, version) *)\n'
+        u += 'Definition py_classes%s : list (string * Z * Z) := [\n%s\n].\n' % (suf, ';\n'.join(
+            '  (%s, %s, %s)' % (q(n), zl(a), zl(b)) for n, a, b in snap['classes']))
+        u += '(* message_type_to_class: (type, class) *)\n'
+        u += 'Definition py_registry%s : list (Z * string) := [\n%s\n].\n' % (suf, ';\n'.join(
+            '  (%s, %s)' % (zl(a), q(n)) for a, n in snap['registry']))
+        return u
+    t = vf.gen_header(['python/fusion_engine_client/**/*.py (import + introspection; then harness/py/c03_exercise.py uses the library and the tables are read again)']) + HEAD
+    t += py_defs(py, '', 'as read right after import')
+    t += py_defs(py['after_use'], '_after', 'as read again in the same interpreter after encode/decode of every class, the readers, DataLoader, every Analyzer plot_*/generate_* method, printing')
     vf.write_if_changed(os.path.join(vf.THEORIES, 'Generated', 'EnumsPy.v'), t)
 
     # ---- EnumsExc.v (from the committed exception table + the pairing)
